@@ -10,6 +10,7 @@ package l4tee
 // Without -race (quick tier) the workload only runs as a smoke test.
 
 import (
+	"bytes"
 	"context"
 	"encoding/json"
 	"fmt"
@@ -140,6 +141,66 @@ func vRaceWorkload(t *testing.T, nclients int) (served int) {
 	return served
 }
 
+// second workload: the real ListenerWrapper (no routes: every connection falls through) over a
+// unix listener; the consumer reads from a connection as soon as Accept returns it, i.e. while the
+// wrapper's handle goroutine may still be finishing
+func vRaceHandover(t *testing.T, nclients int) (handed int) {
+	dir, err := os.MkdirTemp("", "verif-c08-handover")
+	if err != nil {
+		t.Fatal(err)
+	}
+	defer os.RemoveAll(dir)
+	sock := filepath.Join(dir, "l.sock")
+	inner, err := net.Listen("unix", sock)
+	if err != nil {
+		t.Fatal(err)
+	}
+	ctx, cancel := caddy.NewContext(caddy.Context{Context: context.Background()})
+	defer cancel()
+	lw := &layer4.ListenerWrapper{}
+	if err := lw.Provision(ctx); err != nil {
+		t.Fatal(err)
+	}
+	ln := lw.WrapListener(inner)
+	var cw sync.WaitGroup
+	for i := 0; i < nclients; i++ {
+		cw.Add(1)
+		go func(i int) {
+			defer cw.Done()
+			c, err := net.Dial("unix", sock)
+			if err != nil {
+				return
+			}
+			defer c.Close()
+			msg := bytes.Repeat([]byte{byte('a' + i%26)}, 3000)
+			_, _ = c.Write(msg)
+			_ = c.SetReadDeadline(time.Now().Add(2 * time.Second))
+			_, _ = io.Copy(io.Discard, c)
+		}(i)
+	}
+	var rw sync.WaitGroup
+	for i := 0; i < nclients; i++ {
+		c, err := ln.Accept()
+		if err != nil {
+			break
+		}
+		handed++
+		rw.Add(1)
+		go func(c net.Conn) {
+			defer rw.Done()
+			buf := make([]byte, 3000)
+			_ = c.SetReadDeadline(time.Now().Add(2 * time.Second))
+			_, _ = io.ReadFull(c, buf)
+			_, _ = c.Write([]byte("ok"))
+			_ = c.Close()
+		}(c)
+	}
+	rw.Wait()
+	_ = ln.Close()
+	cw.Wait()
+	return handed
+}
+
 func TestVerifC08RaceChild(t *testing.T) {
 	if os.Getenv("VERIF_C08_CHILD") != "1" {
 		t.Skip("child of TestVerifC08Race")
@@ -150,6 +211,7 @@ func TestVerifC08RaceChild(t *testing.T) {
 	}
 	served := vRaceWorkload(t, n)
 	fmt.Printf("VERIF-C08-SERVED %d\n", served)
+	fmt.Printf("VERIF-C08-HANDED %d\n", vRaceHandover(t, n))
 }
 
 // ---- race report attribution --------------------------------------------------------------------
@@ -294,6 +356,7 @@ func TestVerifC08Race(t *testing.T) {
 	out := vOpen()
 	defer out.Close()
 	if !vRaceEnabled {
+		out.Stat("race.handed_over", vRaceHandover(t, 16))
 		served := vRaceWorkload(t, 16)
 		out.Stat("race.mode", "off (quick tier): workload only")
 		out.Stat("race.served", served)
@@ -314,6 +377,13 @@ func TestVerifC08Race(t *testing.T) {
 	served := 0
 	if m := regexp.MustCompile(`VERIF-C08-SERVED (\d+)`).FindSubmatch(outb); m != nil {
 		served, _ = strconv.Atoi(string(m[1]))
+	}
+	if m := regexp.MustCompile(`VERIF-C08-HANDED (\d+)`).FindSubmatch(outb); m != nil {
+		h, _ := strconv.Atoi(string(m[1]))
+		out.Stat("race.handed_over", h)
+		if h == 0 {
+			out.Fail("C08:race:workload-handed-over-nobody", "the ListenerWrapper hand-over workload delivered no connection under the race detector", nil)
+		}
 	}
 	out.Stat("race.mode", "on")
 	out.Stat("race.served", served)
@@ -350,6 +420,6 @@ func TestVerifC08Race(t *testing.T) {
 	for _, l := range locs {
 		out.Case(fmt.Sprintf("CRace %q", l), "race/"+l, true, map[string]any{"sites": found[l][0]})
 		out.Fail("C08:race:"+l, "the Go race detector reported a data race on "+l+": "+found[l][0],
-			map[string]any{"location": l, "reports": len(found[l]), "sites": found[l][0], "workload": "48 concurrent clients, route: match openvpn{modes:[auth]} -> proxy to one upstream with two dial addresses", "source": "go test -race"})
+			map[string]any{"location": l, "reports": len(found[l]), "sites": found[l][0], "workload": "48 concurrent clients through (a) match openvpn{modes:[auth]} -> proxy to one upstream with two dial addresses, (b) a ListenerWrapper without routes whose consumer reads right after Accept", "source": "go test -race"})
 	}
 }
